@@ -13,7 +13,7 @@
    NOT covered here: everything outside [tree_sem] (casts, neg/inv, loads/stores, moves, jumps, calls, labels,
    frame-relative addressing, floats), register allocation, frame layout, other targets. *)
 From PV Require Import Lib.Py Spec.IRSyntax Spec.IRSem Spec.RV32Decode Spec.RV32Exec Model.RvRules
-  Gen.Tab_rv_patterns Gen.Tab_rv_bad Proofs.C05_arith Proofs.C05_rules Proofs.C05_mem Proofs.C05_table Model.RvFrame Proofs.C05_frame.
+  Gen.Tab_rv_patterns Gen.Tab_rv_bad Proofs.C05_arith Proofs.C05_rules Proofs.C05_mem Proofs.C05_ext Proofs.C05_table Model.RvFrame Proofs.C05_frame.
 From Coq Require Import String.
 Open Scope Z_scope.
 Open Scope list_scope.
@@ -121,11 +121,31 @@ Print Assumptions c05_rv_cjmp_refuted.
 
 Theorem c05_rv_rules2_decided :
   forallb (fun n => let r := rule_at n in
-                    negb (in_scope2 r) || check_rule2 r || existsb (fun w => Nat.eqb (fst (fst w)) n) rv_cj_bad ||
+                    negb (in_scope2 r) || check_rule2 r || check_cjmp_ext r ||
+                    existsb (fun w => Nat.eqb (fst (fst w)) n) rv_cj_bad ||
                     existsb (Nat.eqb n) rv_rules2_undecided)
           (seq 0 (List.length rv_rules)) = true.
 Proof. exact rules2_decided. Qed.
 Print Assumptions c05_rv_rules2_decided.
+
+(* ---- sub-word conditional jumps that extend their operands first, and unary value rules (Proofs/C05_ext.v).
+   ext_correct: slli k; srai/srli k (k = 32 - bits) leaves the 32-bit register whose signed/unsigned reading is
+   the sub-word IR value.  cjmp_ext_correct: CJMP{I,U}{8,16}[op] emitting the two extensions into fresh registers
+   and then the 32-bit branch: taken iff IRSem.eval_cond on the represented sub-word values; only the two
+   temporaries change.  unary_correct: truncating/same-width casts (no code), widening casts by extension
+   according to the SOURCE signedness into a fresh register, NEG (sub d, x0, a), INV (xori d, a, -1), REG. *)
+Theorem c05_rv_ext_correct : forall bits sg a, (bits = 8 \/ bits = 16) -> 0 <= a < 4294967296 ->
+  0 <= ext_val bits sg a < 4294967296 /\ wrap_bits 32 sg (ext_val bits sg a) = wrap_bits bits sg a.
+Proof. exact ext_correct. Qed.
+Print Assumptions c05_rv_ext_correct.
+
+Theorem c05_rv_cjmp_ext_rule_sound : forall r, check_cjmp_ext r = true -> cjmp_ext_correct r.
+Proof. exact check_cjmp_ext_sound. Qed.
+Print Assumptions c05_rv_cjmp_ext_rule_sound.
+
+Theorem c05_rv_unary_rule_sound : forall r, check_unary r = true -> unary_correct r.
+Proof. exact check_unary_sound. Qed.
+Print Assumptions c05_rv_unary_rule_sound.
 
 (* ---- c05_rv_callconv: frame code and argument locations on the abstract frame machine of Model/RvFrame.v
    (registers + word slots addressed by byte address; the printed prologue/epilogue instruction lists are
